@@ -30,7 +30,21 @@ def check_follow(sc):
     spec = sc["T"]
     maxdT = (sc.get("constraints") or {}).get("maxTempChange", 1)
     T = np.array(pd.temperature, dtype=float)
-    exp = np.array([H.schedule_value(spec, t) for t in pd.time], dtype=float)
+    # the schedule in force for a recorded row is the one of the solve call that recorded it (T_calls: schedules set between calls)
+    rows = res["rows_after_call"]
+    specs = [spec]
+    for k in range(1, len(rows) - 1):
+        nxt = (sc.get("T_calls") or [None] * k)[k - 1] if len(sc.get("T_calls") or []) >= k else None
+        specs.append(nxt if nxt is not None else specs[-1])
+    row_spec = []
+    for i in range(len(pd.time)):
+        k = 0
+        while k + 1 < len(rows) - 1 and i >= rows[k + 1]:
+            k += 1
+        row_spec.append(specs[min(k, len(specs) - 1)])
+    exp = np.array([H.schedule_value(sp, t) for sp, t in zip(row_spec, pd.time)], dtype=float)
+    if sc.get("T_calls"):
+        out.label("schedule_changed_between_solve_calls")
     bad = np.where(T != exp)[0]
     if len(bad):
         i = int(bad[0])
@@ -158,6 +172,16 @@ def _ramp_scenario(draw, cap=300):
         Ts = [T0, T0, float(np.clip(T0 + dT, 350.0, 1300.0)), T0, T0]
         sc["spike"] = True
     sc["T"] = [draw(st.sampled_from(["array", "array", "func"])), hrs, Ts]
+    if len(sc["durations"]) > 1 and draw(st.integers(0, 2)) == 0:
+        # ageing steps done by hand: solve, hand a new constant temperature to the setter, solve again (the first step a hold or the profile above)
+        if draw(st.booleans()):
+            sc["T"] = ["const", T0]
+        Tend = T0 if sc["T"][0] == "const" else Ts[-1]
+        calls = []
+        for _ in sc["durations"][1:]:
+            Tend = float(np.clip(Tend + draw(st.floats(3.0, 80.0)) * draw(st.sampled_from([1.0, -1.0])), 350.0, 1300.0))
+            calls.append(["const", Tend] if draw(st.integers(0, 3)) > 0 else None)
+        sc["T_calls"] = calls
     c = dict(sc.get("constraints") or {})
     c["maxTempChange"] = draw(st.sampled_from([1.0, 1.0, 0.1, 0.5, 3.0, 10.0]))
     if draw(st.integers(0, 3)) == 3:
@@ -190,7 +214,7 @@ def _entry_scenario(draw):
 def clauses():
     cl = [
         Clause("follow", _ramp_scenario, check_follow, quick=130, thorough=3000, shrink=False,
-               rule="generator: toy binary single-phase scenario with a 2-5 break-point schedule (heat/cool/hold segments of 0.2-120 K, as array or function), maxTempChange in {0.1,0.5,1,3,10}, optional maxNonIsothermalDT, both iterators, 1-3 solve calls, cap 300; "
+               rule="generator: toy binary single-phase scenario with a 2-5 break-point schedule (heat/cool/hold segments of 0.2-120 K, as array or function), maxTempChange in {0.1,0.5,1,3,10}, optional maxNonIsothermalDT, both iterators, 1-3 solve calls (one multi-call case in three hands a new constant temperature to the setter between calls, the first step a hold or the profile), cap 300; "
                     "oracle: recorded T = schedule(t) exactly; tabulated equilibrium composition inverted through the analytic solvus lies within maxTempChange of the current temperature; non-trivial: total change > 3 maxTempChange, some step changing T by less than maxTempChange, nucleation rate > 0 somewhere"),
         Clause("entry", _entry_scenario, check_entry, quick=60, thorough=1200, shrink=False,
                rule="generator: the same scenarios; each run through the constructor parameter object and through the setter, and (for profiles) as array and as equivalent function; and (2 in 3) set after 1-2 other schedules (constant/array/function, the first possibly through the constructor) had been set on the same model; and through the typed setters of the parameter object (on an empty object given to the constructor; on the model's object after the earlier schedules); and handed to the setter after setup() had been called under a schedule of the other kind with the same starting temperature; pData compared exactly, same isothermal/non-isothermal treatment; non-trivial: non-constant schedule or a prior schedule, with nucleation and > 10 steps"),
